@@ -84,6 +84,10 @@ def check(rep):
         files.append(("fragmented_%dtracks_orphan%s" % (len(trs_f), "" if orphan is None else "_%x" % orphan), init + media))
         if orphan is not None:
             files.append(("fragmented_%dtracks_only_orphan_%x" % (len(trs_f), orphan), init + isogen.build_fragmented(trs_f, fr[1:], trex_dur=0)[1](len(init))[0]))
+    # generated fragmented movies: several fragments, runs of different lengths and sample sizes, several track fragments of one track in a movie fragment
+    # (a position remembered inside one run must not be used in another)
+    for name, finit, m1, m0, _fields in readcheck.valid_fragmented(rng, 3 if quick else 12):
+        files.append((name + "_stream", finit + m1))
     fails, ties = [], []
     stats = {"files": len(files), "schedules": 0, "calls": 0, "failing_calls": 0, "mux_histories": 0}
     profile = "debug"
@@ -182,7 +186,7 @@ def check(rep):
                     fails.append(("open_twice_%d" % len(fails), {"kind": "input", "what": "two opens of the same bytes give different %s structures" % k, "case": name, "file": d.hex()}))
                     bad = True
                     break
-            if not bad and (dx.get("calls") != dy.get("calls") or dx.get("tracks") != dy.get("tracks")):
+            if not bad and (dx.get("calls") != dy.get("calls") or dx.get("tracks") != dy.get("tracks") or dx.get("acc") != dy.get("acc")):
                 fails.append(("open_twice_%d" % len(fails), {"kind": "input", "what": "two opens of the same bytes give different accessor/sample results", "case": name, "file": d.hex()}))
                 bad = True
             if bad:
